@@ -119,7 +119,7 @@ fn offer_dup(ctx: &mut Ctx, ty: Ty, m: &[(Item, Item)], mixed: bool) {
 }
 
 fn base_map(ctx: &mut Ctx, ty: Ty) -> Vec<(Item, Item)> {
-    let o = GenOpts { styled_prot: 0, built: false, max_depth: 1 };
+    let o = GenOpts { styled_prot: 0, built: false, max_depth: 1, mixed: false };
     loop {
         let it = match ty {
             Ty::Header => model::enc_header(&gen::gen_header(&mut ctx.rng, &o, 0)),
@@ -255,10 +255,14 @@ impl Check for C12 {
             Phase { name: "decode: label x position-pair matrix for maps of <= 4 entries over the label alphabet", cases: scale(if q { 7500 } else { 40000 }, b), exhaustive: false },
             Phase { name: "encode: extras repeating a label / naming a populated typed field, in Header, CoseKey, ClaimsSet and nested carriers", cases: scale(if q { 150000 } else { 1000000 }, b), exhaustive: false },
             Phase { name: "encode: every typed label of Header (7, with 1 and 2+ counter-signatures; also with both IV and Partial IV populated), CoseKey (5), ClaimsSet (7) as an extra", cases: 8 + 5 + 7 + 4, exhaustive: true },
+            Phase { name: "birthday: 2^18 pairwise distinct labels in a header / key / claims map are not a duplicate, decoding and encoding", cases: 11, exhaustive: true },
         ]
     }
     fn run_case(&self, ctx: &mut Ctx, phase: usize, idx: u64) {
         match phase {
+            4 => {
+                super::common::birthday_case(ctx, idx);
+            }
             0 => {
                 let ty = [Ty::Header, Ty::Key, Ty::Claims][(idx % 3) as usize];
                 let m = base_map(ctx, ty);
@@ -437,7 +441,7 @@ impl Check for C12 {
         }
     }
     fn rule(&self) -> String {
-        "decode: valid header / key / claims maps (entries shuffled) with every entry duplicated at every position, the second occurrence carrying the same value, a wrong-kind value or a random value, keys of the two occurrences encoded in different styles (head width, bignum form, indefinite text); small maps over the whole label alphabet with every label x position pair; each offered at the top level (must be rejected, with DuplicateMapKey when the duplicate is the map's first fault) and in 16 nested carriers (protected/unprotected of messages, signers, recipients to depth 3, counter-signatures, key sets, KDF supplementary info: must be rejected). encode: in-memory Header / CoseKey / ClaimsSet values (alone and nested) whose extras repeat a label or name a populated typed field; to_vec must fail or emit no repeated key. Non-trivial = distinct encodings / distinct in-memory collisions.".into()
+        "decode: valid header / key / claims maps (entries shuffled) with every entry duplicated at every position, the second occurrence carrying the same value, a wrong-kind value or a random value, keys of the two occurrences encoded in different styles (head width, bignum form, indefinite text); small maps over the whole label alphabet with every label x position pair; each offered at the top level (must be rejected, with DuplicateMapKey when the duplicate is the map's first fault) and in 16 nested carriers (protected/unprotected of messages, signers, recipients to depth 3, counter-signatures, key sets, KDF supplementary info: must be rejected). encode: in-memory Header / CoseKey / ClaimsSet values (alone and nested) whose extras repeat a label or name a populated typed field; to_vec must fail or emit no repeated key. Birthday workload: 2^18 pairwise distinct labels (8-character texts / 64-bit integers / private-use integers) in one map must all be accepted and come back in order (a duplicate detector keyed on anything shorter than the label would report a duplicate that is not there). Non-trivial = distinct encodings / distinct in-memory collisions.".into()
     }
     fn assumptions(&self) -> Vec<String> {
         super::std_assumptions()
